@@ -17,7 +17,7 @@ TESTS = ["TestStressPriority", "TestStressSimple", "TestStressJoin", "TestStress
 def run(tier, seed, replay):
     t0 = time.time()
     pid = "C20"
-    proofs = core.proofs_part(pid)
+    proofs = core.proofs_part(pid, thorough=(tier == "thorough"))
     rounds = 3 if tier == "quick" else 40
     races, runs, samples = [], 0, []
     failures_other = []
